@@ -6,7 +6,9 @@ diff=$1; prop=$2; tier=${3:-quick}
 cd "$(dirname "$0")/.." || exit 2
 if [ -n "$(git -C /repo status --porcelain)" ]; then echo "repo not clean"; exit 2; fi
 git -C /repo apply "$diff" || { echo "cannot apply $diff"; exit 2; }
-trap 'git -C /repo checkout -- . ; git -C /repo clean -fdq' EXIT
+# the run rewrites evidence/<prop>.json from a tree that is not /repo's: put the real one back afterwards
+ev=evidence/$prop.json; evsave=$(mktemp); cp $ev $evsave 2>/dev/null
+trap 'git -C /repo checkout -- . ; git -C /repo clean -fdq; cp $evsave $ev 2>/dev/null; rm -f $evsave' EXIT
 out=$(mktemp)
 ./check.sh $prop $tier > $out 2>&1
 rc=$?
